@@ -559,6 +559,10 @@ def assume(t, c, truth, _memo=None):
         return t
     if t is c:
         return TRUE if truth else FALSE
+    if t.op == "ne" and c.op == "eq" and ((t.args[0] is c.args[0] and t.args[1] is c.args[1]) or (t.args[0] is c.args[1] and t.args[1] is c.args[0])):
+        return FALSE if truth else TRUE
+    if t.op == "eq" and c.op == "ne" and ((t.args[0] is c.args[0] and t.args[1] is c.args[1]) or (t.args[0] is c.args[1] and t.args[1] is c.args[0])):
+        return FALSE if truth else TRUE
     k = id(t)
     if k in _memo:
         return _memo[k]
